@@ -105,7 +105,7 @@ class LThread:
         return None
 
     def _localtrace(self, frame, event, arg):
-        if event == "line":
+        if event == "line" and (self.sched.line_filter is None or self.sched.line_filter(self, frame)):
             code = frame.f_code
             self._park("line", (os.path.basename(code.co_filename), frame.f_lineno, code.co_name, frame))
             self.info = None  # do not keep the frame alive
@@ -115,6 +115,7 @@ class LThread:
 class Coop:
     def __init__(self, trace=None):
         self.trace = trace
+        self.line_filter = None  # optional (lthread, frame) -> bool: park only at these line events
         self.back = _Sem()
         self.threads = []
         self.aborting = False
@@ -189,10 +190,12 @@ class Coop:
 class CoopLock:
     """Drop-in for ``threading.Lock`` / ``RLock`` (``reentrant=True``) whose blocking is a scheduler park."""
 
-    def __init__(self, sched, name="", reentrant=False):
+    def __init__(self, sched, name="", reentrant=False, always_yield=False, hook=None):
         self.sched, self.name, self.reentrant = sched, name, reentrant
         self.owner = None  # LThread, or "main" for the harness thread
         self.count = 0
+        self.always_yield = always_yield  # a logical thread parks before every acquisition, also of a free lock
+        self.hook = hook                  # called with the new owner after every acquisition
 
     def _me(self):
         return current() or "main"
@@ -202,6 +205,8 @@ class CoopLock:
 
     def acquire(self, blocking=True, timeout=-1):
         me = self._me()
+        if self.always_yield and me != "main" and blocking and not (self.reentrant and self.owner is me):
+            me._park("lock", self)
         while not self.free_for(me):
             if not blocking:
                 return False
@@ -210,6 +215,8 @@ class CoopLock:
             me._park("lock", self)
         self.owner = me
         self.count += 1
+        if self.hook is not None:
+            self.hook(me)
         return True
 
     def release(self):
@@ -270,6 +277,8 @@ class CoopCondition:
         if not self.lock.free_for(me):
             raise InfraError("coop: woken while the condition's lock is held")
         self.lock.owner, self.lock.count = me, saved
+        if self.lock.hook is not None:
+            self.lock.hook(me)
         return me.notified
 
     def notify(self, n=1):
